@@ -3,14 +3,19 @@
 package pppoe
 
 import (
+	"net"
 	"strings"
 	"testing"
+	"time"
 )
 
 func c07Tags(entry string, n []uint64, f []string) string {
 	data := c07Arg(f, 0)
 	prefix := []string{}
 	switch entry {
+	case "cookie": // cookie <fresh> <cookie> <hmac>: CookieManager.Validate on an AC-Cookie from the wire (fixed key, MAC, VLANs)
+		cm := &CookieManager{secret: []byte("c07-cookie-secret"), ttl: time.Hour}
+		return c07Ok(c07Bool(cm.Validate(data, net.HardwareAddr{0xaa, 0xbb, 0xcc, 0, 0, 1}, 100, 0)))
 	case "bldtags": // bldtags <type,...> <value> ...: TagBuilder output fed to ParseTags
 		b := NewTagBuilder()
 		for i, ty := range n {
